@@ -161,6 +161,13 @@ func C13(ctx *core.Ctx) {
 					ctx.Violate("C13.R2", fname+" › transport."+c.Method.Name()+" on the caller's goroutine"+within(f, fn), r.IPos(in),
 						"a stalled write/flush on the underlying transport blocks the caller beyond its timeout (it must run in the spawned sender)")
 				}
+				// broker round trips of the NATS client (PING/PONG with the library's own timeout)
+				switch c.FullName() {
+				case "(*github.com/nats-io/nats.go.Conn).Flush", "(*github.com/nats-io/nats.go.Conn).FlushTimeout", "(*github.com/nats-io/nats.go.Conn).Request",
+					"(*github.com/nats-io/nats.go.Conn).RequestWithContext", "(*github.com/nats-io/nats.go.Conn).Drain", "(*github.com/nats-io/nats.go.Subscription).NextMsg":
+					ctx.Violate("C13.R2", fname+" › "+c.ShortName()+" round trip on the caller's goroutine"+within(f, fn), r.IPos(in),
+						"a broker round trip that is bounded by the client library's own timeout (not the FContext's) runs before the call's timeout is armed: on a stalled link the call returns late and with the library's error instead of TIMED_OUT")
+				}
 				if c.FullName() == "(*net/http.Client).Do" {
 					nwait++
 					ok := false
